@@ -172,3 +172,70 @@ Theorem resultant_rational_agrees_partial : forall m (f g : seq Z) v,
   Resultant.resultant m f g = (true, Done v) ->
   resultant_rational m (List.map Qc_ofZ f) (List.map Qc_ofZ g) = Done (Qc_ofZ v).
 Proof. exact ResAgree.resultant_rational_agrees_partial. Qed.
+
+(** ** Second wave: the sub-resultant structure theorem (SubresDet.v, SubresInv.v, SubresFlag.v)
+
+    The polynomial subresultants S_j of the initial pair are defined as determinants over {poly Z}
+    ([SubresDet.SR]); one pseudo-division step transforms them by explicit factors ([SubresDet.SR_step]);
+    the loop invariant  b^(deg F - j - 1) a^(deg G - j) S_j(A0, B0) = +- S_j(F, G)  for all j <= deg G
+    ([SubresInv.sinv]) is preserved by every step of the model and makes every flagged division exact. *)
+From RNT.Refine Require Import SubresFlag SubresSpec.
+
+(** [P] [resultant_flag_true]: for all canonical inputs whose lengths fit a usize, in either mode, every
+    truncating BigInt division of the run of [resultant] has remainder zero. *)
+Theorem resultant_flag_true : forall m (f g : seq Z),
+  canonb f = true -> canonb g = true -> len_ok f = true -> len_ok g = true ->
+  fst (Resultant.resultant m f g) = true.
+Proof. exact SubresFlag.resultant_flag_true. Qed.
+
+(** [P] [resultant_total]: hence [resultant] never panics on canonical inputs (no division by zero, no failed
+    debug assertion, no usize underflow), in either mode. *)
+Theorem resultant_total : forall m (f g : seq Z),
+  canonb f = true -> canonb g = true -> len_ok f = true -> len_ok g = true ->
+  exists v, Resultant.resultant m f g = (true, Done v).
+Proof. exact SubresSpec.resultant_total. Qed.
+
+(** [P] [resultant_int_spec]: for all canonical non-zero inputs, in either mode, the integer sub-resultant
+    routine returns the determinant of the Sylvester matrix (no flag hypothesis). *)
+Theorem resultant_int_spec : forall m (f g : seq Z),
+  canonb f = true -> canonb g = true -> len_ok f = true -> len_ok g = true ->
+  f <> [::] -> g <> [::] ->
+  Resultant.resultant m f g = (true, Done (\det (Sylvester_mx (Poly g) (Poly f)))).
+Proof. exact SubresSpec.resultant_int_spec. Qed.
+Example int_spec_ex :
+  let f := [:: 5; 0; 0; 0; 6; 9]%Z in let g := [:: 6; 0; 1]%Z in   (* degree gaps 3 and 2 *)
+  canonb f = true /\ canonb g = true /\ len_ok f = true /\ len_ok g = true /\
+  Resultant.resultant Checked f g = (true, Done 678697%Z).
+Proof. repeat split; vm_compute; reflexivity. Qed.
+
+(** [P] "the rational-coefficient variant returns the same value on the same inputs", unconditionally. *)
+Theorem resultant_rational_agrees : forall m (f g : seq Z),
+  canonb f = true -> canonb g = true -> len_ok f = true -> len_ok g = true ->
+  f <> [::] -> g <> [::] ->
+  exists v, Resultant.resultant m f g = (true, Done v) /\
+            resultant_rational m (List.map Qc_ofZ f) (List.map Qc_ofZ g) = Done (Qc_ofZ v).
+Proof. exact SubresSpec.resultant_rational_agrees. Qed.
+
+(** [P] one division step on the polynomial subresultants (any commutative ring, signs not tracked):
+    if a A = T B + C then a^m S_j(A, B) = +- lc(B)^k S_j(B, C) for the nominal row counts m, n'+k. *)
+Theorem SR_step : forall (R : comRingType) (j m n' k : nat) (a : R) (A B T C : {poly R}),
+  a *: A = T * B + C -> (size T + m <= (n' + k).+1)%N -> (0 < m + n')%N ->
+  (size C <= (j + n').+1)%N -> (size B <= (j + m).+1)%N ->
+  exists e : nat,
+    (a ^+ m)%:P * SubresDet.SR j m (n' + k) A B = (-1) ^+ e * (B`_(j + m) ^+ k)%:P * SubresDet.SR j n' m B C.
+Proof. exact SubresDet.SR_step. Qed.
+
+(** [P] scaling law on the outputs of the integer routine, for all canonical non-zero inputs and s, t <> 0:
+    Res(s f, t g) = s^deg g * t^deg f * Res(f, g). *)
+Theorem resultant_scale_model : forall m (f g : seq Z) (s t : Z),
+  canonb f = true -> canonb g = true -> len_ok f = true -> len_ok g = true ->
+  f <> [::] -> g <> [::] -> s != 0 -> t != 0 ->
+  exists v, Resultant.resultant m f g = (true, Done v) /\
+    Resultant.resultant m (List.map (Z.mul s) f) (List.map (Z.mul t) g) =
+      (true, Done (s ^+ (size g).-1 * t ^+ (size f).-1 * v)).
+Proof. exact SubresSpec.resultant_scale_model. Qed.
+Example scale_model_ex :
+  let f := [:: 2; 5; 2]%Z in let g := [:: 2; 0; 1]%Z in
+  Resultant.resultant Checked f g = (true, Done 54%Z) /\
+  Resultant.resultant Checked (List.map (Z.mul (-3)) f) (List.map (Z.mul 2) g) = (true, Done (9 * 4 * 54)%Z).
+Proof. split; vm_compute; reflexivity. Qed.
